@@ -7,13 +7,20 @@ cd "$(dirname "$0")"
 python3 - <<'PY'
 import sys
 sys.path.insert(0, '.')
-from lib import procsim, hcheck, tcheck, kcheck
+from lib import procsim, hcheck, tcheck, kcheck, gcheck
 procsim.ensure_engine()
 hcheck.ensure_engine()
 tcheck.ensure_engine()
 kcheck.ensure_engine()
+gcheck.ensure_engine()
 # warm the harness kernel cache (real compiler, once) by starting the fork servers
 hcheck.server().start(); hcheck.server().stop()
 s = tcheck.Server("setup"); s.start(); s.proc.stdin.write("QUIT\n"); s.proc.stdin.flush(); s.proc.wait()
 PY
+# warm the content-addressed compile caches (translated kernels of the default seeds, compiler-stub memo) with short passes;
+# their reports go to a scratch directory, the evidence files are only written by the registered commands
+for p in C20 C21 C06 C07 C09 C10; do
+  VERIF_OUT="$PWD/_work/warm-out" VERIF_BUDGET_S=40 ./check $p --tier quick > "_work/warm-$p.log" 2>&1 || true
+done
+rm -rf _work/warm-out
 echo "setup done"
